@@ -151,6 +151,32 @@ def register(R):
       note='every record is forwarded unchanged, once, in order; the sink is closed exactly once whether the stream ends or an '
            'operator fails or the consumer closes the generator after any element (a generator that is merely dropped is finalised by the garbage collector: known finding D22)'))
 
+  # ---- build-time key validation ------------------------------------------------------------------------------------
+  TM = 'ml_metrics/_src/chainables/transform.py'
+  R.cls('TreeTransform', dict(name='obj'))
+  from pyvc.treeheap import SELF_KEY
+
+  @R.spec
+  def SELF(it, a, k):
+    return VOpaque(SELF_KEY)
+
+  def _keys_setup(it, env):
+    # keys are opaque hashable objects (strings / Key paths), none of them a dict of keys
+    it.reg.isinstance_hook = lambda itp, v, cname: z3.BoolVal(False) if cname in ('dict', 'Mapping') else None
+
+  clash = 'k0 in exisiting_keys or k1 in exisiting_keys'
+  mixed = ('(k0 is SELF() or k1 is SELF() or SELF() in exisiting_keys)'
+           " and exists(lambda x: x is not SELF() and (x is k0 or x is k1 or x in exisiting_keys), 'obj')")
+  R.add(Contract(
+      f'{TM}::TreeTransform._check_assign_keys', P, variant='two-keys',
+      types=dict(self='TreeTransform', assign_keys='tuple[obj,obj]', exisiting_keys='set[obj]'), setup=_keys_setup,
+      ghost=dict(), witness={},
+      requires=[],
+      # rejected exactly when a new key is already an output key, or SELF would be mixed with any other output key
+      raises={'KeyError': f'({clash.replace("k0", "assign_keys[0]").replace("k1", "assign_keys[1]")}) or ({mixed.replace("k0", "assign_keys[0]").replace("k1", "assign_keys[1]")})'},
+      bounded='bounded_key_validation',
+      note='two plain (non-dict) assign keys against a symbolic set of existing output keys'))
+
   R.bounded_checks[P] = [
       ('bounded_operator_chains', 'all chains of <=3 operators from 11 (select/apply/assign/filter/sink; tuple, kwargs, nested-path, SKIP keys), fused and as named stages, vs a reference interpreter; input records untouched; sinks see every record once and are closed once'),
       ('bounded_chain_api', 'TreeTransform.chain: fused (same name) and chained (different names) pairs route like the operator sequence'),
